@@ -6,6 +6,8 @@ SPEC = {
         {"pkg": "internal/corerad", "test": "TestVerifC10RX", "newgo": True, "timeout": {"quick": 400, "thorough": 1500}, "corr_module": "Corr.C10td"},
         {"pkg": "internal/system", "test": "TestVerifC10dial", "newgo": True, "timeout": 1500, "corr_module": "Corr.C10dial"},
         {"pkg": "internal/system", "test": "TestVerifC10link", "newgo": True, "timeout": 900, "corr_module": "Corr.C10link"},
+        # the real dialNDP / checkInterface / lookupInterface on a veth pair (root only; tagged unavailable otherwise)
+        {"pkg": "internal/system", "test": "TestVerifRealOS", "newgo": True, "timeout": 300},
     ],
     "rule": "(a) every fault class {read error: syscall / permission / other, 5 consecutive timeouts, failing scheduled write: "
             "syscall / permission / other, a scheduled RA that cannot be generated (a plugin's Apply fails), link event, watcher channel closed} injected into a running Advertiser and Monitor "
